@@ -136,6 +136,9 @@ func c13Apply(envs []*env.Env, op c12Op) (out string) {
 	case "PeekExt": // an external lookup that looks at the scope it serves
 		e.SetExternalLookup(&c13ReExt{e: e})
 		return "(none)"
+	case "BindGoStringer": // binds a value whose GoString defines in the scope (T = 1) or lists it (T = 0)
+		e.DefineValue("gs", reflect.ValueOf(c13GoStringer{e: e, define: op.T == 1}))
+		return "(none)"
 	case "String": // the remaining exported operations: explored for deadlock and panic only
 		_ = e.String()
 		return "(none)"
@@ -161,7 +164,7 @@ func c13OpSx(op c12Op) string {
 	switch op.K {
 	case "Snap":
 		return sxList("Snap", sxInt(op.E))
-	case "String", "DeepCopy", "Addr", "Path": // never sent to the model
+	case "String", "DeepCopy", "Addr", "Path", "BindGoStringer": // never sent to the model
 		return sxList(op.K, sxInt(op.E))
 	}
 	return c12SxOp(op)
@@ -302,6 +305,21 @@ func (x *c13ReExt) Type(symbol string) (reflect.Type, error) {
 	return tokTypeOf(3), nil
 }
 
+// c13GoStringer is a value whose GoString method (run by String()'s %#v) uses the scope it is bound in
+type c13GoStringer struct {
+	e      *env.Env
+	define bool
+}
+
+func (g c13GoStringer) GoString() string {
+	if g.define {
+		g.e.DefineValue("seen_by_gostring", tokValue(78, false))
+	} else {
+		g.e.GetValueSymbols()
+	}
+	return "gostringer"
+}
+
 func c13GenOp(rnd *Rand, next *int) c12Op {
 	keys := []string{"a", "b", "p"} // p is bound in the parent
 	k := keys[rnd.Pick([]int{5, 3, 2})]
@@ -406,6 +424,16 @@ func c13Directed() []c13Program {
 			{{K: "DeepCopy", E: 1}, {K: "String", E: 0}}, {{K: "Set", E: 1, S: "p", V: tv(12)}, {K: "Delete", E: 1, S: "a"}}}},
 		{Reentrant: true, Init: with(c12Op{K: "Define", E: 1, S: "a", V: tv(3)}), Threads: [][]c12Op{
 			{{K: "Addr", E: 1, S: "a"}, {K: "Addr", E: 1, S: "p"}}, {{K: "Path", E: 1, S: "a"}}, {{K: "DeleteGlobal", E: 1, S: "a"}, {K: "Define", E: 0, S: "a", V: tv(13)}}}},
+		// String() prints values with %#v: a value's own GoString method must not find the scope locked
+		{Reentrant: true, Init: with(c12Op{K: "BindGoStringer", E: 1, T: 1}), Threads: [][]c12Op{{{K: "String", E: 1}}, {{K: "Get", E: 1, S: "p"}}}},
+		{Reentrant: true, Init: with(c12Op{K: "BindGoStringer", E: 1, T: 0}), Threads: [][]c12Op{
+			{{K: "String", E: 1}}, {{K: "Define", E: 1, S: "b", V: tv(12)}}, {{K: "Delete", E: 1, S: "b"}}}},
+		{Reentrant: true, Init: with(c12Op{K: "LazyExt", E: 1}), Threads: [][]c12Op{ // Addr consults the external lookup as Get does
+			{{K: "Addr", E: 1, S: "zz"}}, {{K: "Define", E: 1, S: "b", V: tv(12)}}}},
+		{Reentrant: true, Init: with(c12Op{K: "Define", E: 1, S: "a", V: tv(3)}, c12Op{K: "PeekExt", E: 1}), Threads: [][]c12Op{
+			{{K: "Addr", E: 1, S: "zz"}, {K: "Addr", E: 1, S: "a"}}, {{K: "Set", E: 1, S: "a", V: tv(12)}}, {{K: "Delete", E: 1, S: "b"}}}},
+		{Reentrant: true, Init: with(c12Op{K: "PeekExt", E: 0}), Threads: [][]c12Op{ // the lookup of the parent, reached by Addr through the child
+			{{K: "Addr", E: 1, S: "zz"}}, {{K: "Define", E: 0, S: "q", V: tv(12)}}, {{K: "Define", E: 1, S: "b", V: tv(13)}}}},
 		{Reentrant: true, Init: with(c12Op{K: "PeekExt", E: 0}), Threads: [][]c12Op{ // the lookup sits on the parent: reached through the child
 			{{K: "Get", E: 1, S: "zz"}}, {{K: "Define", E: 0, S: "q", V: tv(12)}}, {{K: "Define", E: 1, S: "b", V: tv(13)}}}},
 	}
@@ -447,7 +475,7 @@ func c13Main(seed uint64, n int, outDir, repo string) error {
 		_ = initSx
 		var inits []string
 		for _, op := range p.Init {
-			if op.K == "LazyExt" || op.K == "PeekExt" {
+			if op.K == "LazyExt" || op.K == "PeekExt" || op.K == "BindGoStringer" {
 				inits = append(inits, "("+op.K+")")
 				continue
 			}
